@@ -13,7 +13,7 @@ EXPLANATION = ("Necessary shape conditions decided on all paths of the five chan
                "ref<->index conversions are inverse maps over element 0 of their own buffer; (R08.3) the lap reconstruction of the index-based publish / cancel is wrap-safe "
                "(dimension rules shared with C15) and the publication CAS is >= Release; (R08.4) capacity accounting: the rings' fullness guard counts reserved-but-unpublished "
                "slots on a wrapping distance and the counters move only through the protocol shapes (shared with C02), so after every slot was sent or cancelled exactly "
-               "BUFFER_SIZE can be outstanding again. (R08.5) the Uni's reserve_slot / try_send_reserved / try_cancel_slot_reserve forward to the same-named channel method unchanged.")
+               "BUFFER_SIZE can be outstanding again. (R08.5) the Uni's reserve_slot / try_send_reserved / try_cancel_slot_reserve forward to the same-named channel method unchanged. (R08.6) in the allocator-backed Multi channels try_send_reserved answers only `true` once the reserved slot was wrapped in an owning handle (a `false` there invites the documented retry on a slot that is already consumed).")
 ASSUMPTIONS = ["the exhaustive history clause ('after any sequence ... accepts exactly BUFFER_SIZE again') is a behavioural statement; decided here are the shape conditions it stands on",
                "payload types without destructor (property's own restriction)"]
 
@@ -135,6 +135,21 @@ def check(ctx):
             if rule in ("R02.1", "R02.2"): return super().ob(rule, key, ok, site, detail, nontrivial, undecided)
             return ok
     C02.check(Cap(ctx, "R08.4"))
+    # ------------------------------------------------------------------ R08.6 an answer other than `true` leaves the reservation with the caller
+    # the allocator-backed Multi channels wrap the reserved slot in an owning handle (OgreArc::from_allocated) before fanning it out: from that point the slot is
+    # consumed (the handle's drop frees it when no listener took a copy), so the only honest answer is `true` -- `false` invites the documented retry, which
+    # sends / frees the same slot a second time
+    for name in ("multi.ogre_arc.atomic", "multi.ogre_arc.full_sync"):
+        k6 = f"{R.CHANNELS[name]} as {R.T_PROD}::try_send_reserved"
+        b6 = Body(fx.fn(k6)); d6 = D.Dag(b6)
+        own = [(b, c) for (b, c) in b6.calls if c.get("fname") in ("from_allocated", "from_allocated_with_clones", "from_allocated_id", "from_allocated_ref")]
+        if not own:
+            ctx.ob("R08.6", f"{k6}|consumed-means-true", False, f"{b6.f['file']}:{b6.f['line']}", "no owning handle is built for the reserved slot"); continue
+        vals = set()
+        for (ob_, _) in own: vals |= util.returned_values(b6, d6, ob_)
+        ctx.ob("R08.6", f"{k6}|consumed-means-true", vals == {("const", 1)}, b6.loc(own[0][0]),
+               f"answers after the slot was wrapped in an owning handle: {sorted(map(str, vals))}; required: only `true`")
+    ctx.floor("R08.6", 2)
     # ------------------------------------------------------------------ R08.5 the Uni reservation API forwards to its channel unchanged
     import delegation
     for fn in ("reserve_slot", "try_send_reserved", "try_cancel_slot_reserve"):
